@@ -41,8 +41,7 @@ Bodies(sig) == IF XsOf(sig) \cap BodyX = {} THEN {NoRq.body}
                ELSE {b \in [fmt : BodyX, pl : StructPl \cup TextPl \cup {"empty"}] :
                        /\ b.pl = "empty" \/ (IF b.fmt = "Text" THEN b.pl \in TextPl ELSE b.pl \in StructPl)
                        /\ Full(sig) \/ b.pl \in {"v1", "syntax", "nonutf8", "empty"}}
-Reqs(sig) == [q : IF "Query" \in XsOf(sig) THEN (IF Full(sig) THEN {"absent"} \cup StructPl ELSE {"absent", "v1", "wrongtype"}) ELSE {"absent"},
-              ct : Cts(sig), body : Bodies(sig),
+HdrReqs(sig) == [q : IF "Query" \in XsOf(sig) THEN (IF Full(sig) THEN {"absent", "emptyq"} \cup StructPl ELSE {"absent", "v1", "wrongtype"}) ELSE {"absent"},
               auth : IF "Auth" \in XsOf(sig) THEN (IF Full(sig) THEN {"absent", "h1", "h2"} ELSE {"absent", "h1"}) ELSE {"absent"},
               mf : IF "MaxFwd" \in XsOf(sig) THEN {"absent", "valid", "invalid"} ELSE {"absent"},
               ck : IF "Cookie" \in XsOf(sig) THEN (IF Full(sig) THEN {"absent"} \cup (StructPl \ {"syntax", "extra"}) ELSE {"absent", "v1", "missing"}) ELSE {"absent"}]
@@ -62,8 +61,12 @@ Next ==
      /\ \E tk \in BaseTok : x' = [x EXCEPT !.toks = Append(@, tk)]
   \/ /\ x.t = "seg" /\ x.toks = <<>>
      /\ \E pre \in LitPre : \E lt \in LitTok : \E suf \in LitSuf : x' = [x EXCEPT !.toks = pre \o <<lt>> \o suf, !.lit = TRUE]
+  \* two levels (headers and query first, then Content-Type x body x segments) so that no single worker owns a whole signature
   \/ /\ x.t = "sig"
-     /\ \E rq \in Reqs(x.sig) : \E segs \in SegChoices(x.sig.ptys) : x' = [t |-> "item", scn |-> MkScn(x.sig, segs, rq)]
+     /\ \E h \in HdrReqs(x.sig) : x' = [t |-> "sig2", sig |-> x.sig, h |-> h]
+  \/ /\ x.t = "sig2"
+     /\ \E ct \in Cts(x.sig) : \E b \in Bodies(x.sig) : \E segs \in SegChoices(x.sig.ptys) :
+          x' = [t |-> "item", scn |-> MkScn(x.sig, segs, [q |-> x.h.q, ct |-> ct, body |-> b, auth |-> x.h.auth, mf |-> x.h.mf, ck |-> x.h.ck])]
   \/ /\ x.t = "psig"
      /\ \E segs \in SegChoices(x.sig.ptys) :
           \/ x' = [t |-> "bind", scn |-> MkScn(x.sig, segs, NoRq)]
@@ -80,7 +83,7 @@ SegInv == (x.t = "seg" /\ x.toks # <<>>) =>
   /\ \A r1 \in rs : \A r2 \in rs : (r1.ok /\ r2.ok) => r1 = r2
   /\ (x.ty \in IntTy /\ IntClass(x.ty, x.toks) = "canonical") => rs = {Ok(Val("int", SegChars(x.toks)))}
   /\ (x.ty \in IntTy /\ IntClass(x.ty, x.toks) \in {"not-an-integer", "out-of-range", "not-utf8"}) => rs = {Fail}
-  /\ (x.ty \in StrTy /\ ~SegEsc(x.toks)) => rs = {Ok(Val("str", SegChars(x.toks)))}
+  /\ (x.ty \in StrTy /\ ~SegEsc(x.toks) /\ ~SegInvalid(x.toks)) => rs = {Ok(Val("str", SegChars(x.toks)))}
   /\ (m.dev \notin KnownDev) => res \in rs
   /\ (m.dev # "") => (x.ty \in IntTy /\ IntClass(x.ty, x.toks) \in {"not-an-integer", "out-of-range"})
   /\ REPAIRED => m.dev = ""
